@@ -5,6 +5,11 @@ import casefam, storefam
 def run(ctx):
     thorough = ctx.tier == "thorough"
     casefam.run_cases(ctx, "Record.tla", "MC_Record_thorough.cfg" if thorough else "MC_Record_quick.cfg", "record", "record")
+    # the same cases (at most one deviation) on a host with fewer processors than the argon2id set has lanes: what authenticates is
+    # decided by the configured parameters, never by the machine
+    dev = lambda e: sum(1 for k, v in e["case"].items() if v != {"algo": "match", "time": "dec", "param": "known", "salt": "orig", "digest": "match", "shape": "exact"}[k])
+    casefam.run_cases(ctx, "Record.tla", "MC_Record_quick.cfg", "record", "record-fewcpus", flt=lambda e: dev(e) <= 1,
+                      env={"GOMAXPROCS": "2", "VERIF_ARGON_THREADS": "4"})
     # the schema's rules for unsupported files inside histories: every Store edge (add/update/remove/list on unsupported files)
     storefam.run_family(ctx, seeds=[ctx.seed])
     # the same rules along model histories (SimStore, 3 parameter sets, default switches) against one real directory each
